@@ -51,7 +51,11 @@ def run(case):
             r = a.get_overlap() if case["labels"] is None else a.get_overlap(labels=list(case["labels"]))
             return {"overlap": segs_of(tb, r)}
         t = mk_tl(tb, case["segs"])
-        return {"segmentation": segs_of(tb, t.segmentation()), "overlap": segs_of(tb, t.get_overlap())}
+        out = {"segmentation": segs_of(tb, t.segmentation()), "overlap": segs_of(tb, t.get_overlap())}
+        from harness.tlutil import assert_fresh
+        assert_fresh(tb, lambda: t.segmentation(), "segmentation()")
+        assert_fresh(tb, lambda: t.get_overlap(), "get_overlap()")
+        return out
     finally:
         tb.leave()
 
